@@ -94,7 +94,7 @@ def cases(tier, seed):
     n1, n2 = (500, 60) if tier == "quick" else (6000, 600)
     for _ in range(n1):
         i += 1
-        c = rc.gen_case(rng, "v1", tier, force={"evt": True})  # incl. rail actions that return a value AND an event of their own
+        c = rc.gen_case(rng, "v1", tier, force={"evt": True, "note": True})  # incl. rail actions that return a value AND an event of their own
         yield dict(c, id=i)
     for _ in range(n2):
         i += 1
@@ -107,6 +107,7 @@ def run_case(case):
     spec = case["spec"]
     if r.get("verdict") == "violated" and spec.get("ver") == "v1":
         t_fail = (r.get("witness") or {}).get("turn")
+        r["note_in_earlier_turn"] = any(s_ == "in" and v_ == "note" and t_ < (t_fail or 0) for s_, t_, idx, v_ in case["V"])
         shapes = spec.get("in_shapes") or []
         turns_ = range(0, (t_fail or 0) + 1) if r.get("what") == "earlier-masked-original-text-in-later-prompt" else [t_fail]
         r["evt_rewrite_in_failing_turn"] = any(s_ == "in" and t_ in turns_ and v_ == "rewrite" and idx < len(shapes) and shapes[idx] == "evt" for s_, t_, idx, v_ in case["V"])
@@ -117,6 +118,9 @@ def run_case(case):
 
 
 def classify(r):
+    if r.get("ver") == "v1" and r.get("note_in_earlier_turn") and r.get("what") in ("input-rail-calls-differ", "llm-call-before-last-input-rail", "no-generation-for-accepted-message", "reply-is-not-the-rejecting-rails-refusal", "llm-called-after-input-rejection"):
+        # structural: in an EARLIER turn of the conversation an input rail said something without `stop`
+        return "leftover-input-rails-instance-after-rail-message-without-stop"
     if r.get("ver") == "v1" and r.get("evt_rewrite_in_failing_turn") and r.get("what") in ("original-text-in-prompt-after-rewrite", "input-rail-calls-differ", "earlier-masked-original-text-in-later-prompt"):
         # structural: in the failing turn a rail of the `evt` shape (its action returns the rewritten text as return value
         # together with an event of its own) rewrote the message
